@@ -35,6 +35,11 @@ def divImg (p : PixT) (im : Img) : Img := { im with data := divPixels p im.data 
 
 def isIntF (x : Float) : Bool := x == x.round
 
+/-- first used sample over ALL windows (the repaired code takes the minimum, not `bounds[0]`) -/
+def boundsFirst (c : Coeffs) : Nat := c.bounds.foldl (fun m b => min m b.1) (c.bounds.getD 0 (0, 0)).1
+/-- one past the last used sample over all windows -/
+def boundsLast (c : Coeffs) : Nat := c.bounds.foldl (fun m b => max m (b.1 + b.2)) 0
+
 /-- `do_convolution` -/
 def doConvolution (p : PixT) (src : Img) (cl ct cw ch : Float) (prev : Img) (f : FilterSpec) (adaptive : Bool) : Img := Id.run do
   let dstW := prev.w
@@ -47,16 +52,16 @@ def doConvolution (p : PixT) (src : Img) (cl ct cw ch : Float) (prev : Img) (f :
   match hc, vc with
   | some hc, some vc =>
     if p.kind == .u8 then
-      let xFirst := hc.bounds.foldl (fun m b => min m b.1) (hc.bounds.getD 0 (0, 0)).1
-      let xLast := hc.bounds.foldl (fun m b => max m (b.1 + b.2)) 0
-      let tempW := xLast - xFirst
+      let xFirst := boundsFirst hc
+      let tempW := boundsLast hc - xFirst
+      -- a zero-width temporary image yields no rows at all: the horizontal pass writes nothing (finding F18)
+      if tempW = 0 then return prev
       let temp := vertPass p.kind src tempW dstH xFirst vc
       let hc' := { hc with bounds := hc.bounds.map fun b => (b.1 - xFirst, b.2) }
       return horizPass p.kind temp dstW dstH 0 hc'
     else
-      let yFirst := vc.bounds.foldl (fun m b => min m b.1) (vc.bounds.getD 0 (0, 0)).1
-      let yLast := vc.bounds.foldl (fun m b => max m (b.1 + b.2)) 0
-      let tempH := yLast - yFirst
+      let yFirst := boundsFirst vc
+      let tempH := boundsLast vc - yFirst
       let temp := horizPass p.kind src dstW tempH yFirst hc
       let vc' := { vc with bounds := vc.bounds.map fun b => (b.1 - yFirst, b.2) }
       return vertPass p.kind temp dstW dstH 0 vc'
